@@ -25,6 +25,8 @@ type Conn struct {
 	eof     bool      // harness closed its writing side
 	failW   bool      // writes fail (peer gone)
 	wdl     time.Time // write deadline set by the server (zero: none)
+	stalled bool      // the peer has stopped reading: only room more bytes fit
+	room    int
 	Name    string
 	Writes  int
 	ReadLog []int // sizes of the reads the server performed
@@ -121,19 +123,44 @@ func (c *Conn) Write(p []byte) (int, error) {
 	// a write to the network is a visible action: under the controlled scheduler it is a scheduling
 	// point, so that two goroutines writing to one connection (a publisher pushing a message, the
 	// connection's own handler writing a reply, a publisher of another channel) interleave write by
-	// write - a frame sent with two Write calls can be split by another writer
+	// write - a frame sent with two Write calls can be split by another writer.
+	// A write to a peer that has stopped reading (Stall) blocks like a write to a full socket: it is
+	// enabled again when the peer resumes, when the connection is closed, or - if the writer set a
+	// write deadline - at once, as the write whose deadline passes while the peer is still stalled.
+	blockedNow := func() bool {
+		return c.stalled && c.room < len(p) && c.wdl.IsZero() && !c.closed && !c.failW
+	}
 	if rt.CurMode == rt.Controlled {
 		if w := rt.W; w != nil && w.Cur != nil && !w.Dead() {
-			w.Point(rt.Op{Kind: rt.OpYield, Obj: c})
+			w.Point(rt.Op{Kind: rt.OpYield, Obj: c, Enabled: func() bool {
+				c.mu.Lock()
+				defer c.mu.Unlock()
+				return !blockedNow()
+			}})
 		}
 	}
 	c.mu.Lock()
 	defer c.mu.Unlock()
+	for blockedNow() {
+		c.cond.Wait()
+	}
 	if c.closed || c.failW {
 		return 0, errors.New("write on closed connection")
 	}
 	if c.writeExpired() {
 		return 0, os.ErrDeadlineExceeded
+	}
+	if c.stalled && c.room < len(p) {
+		// deadline set, peer stalled for longer than it: the part that fitted is on the wire
+		n := c.room
+		c.out = append(c.out, p[:n]...)
+		c.room = 0
+		c.Writes++
+		c.cond.Broadcast()
+		return n, os.ErrDeadlineExceeded
+	}
+	if c.stalled {
+		c.room -= len(p)
 	}
 	c.out = append(c.out, p...)
 	c.Writes++
@@ -171,6 +198,21 @@ func (c *Conn) SendChunks(chunks [][]byte) {
 func (c *Conn) EOF() {
 	c.mu.Lock()
 	c.eof = true
+	c.cond.Broadcast()
+	c.mu.Unlock()
+}
+
+// Stall (harness side): the peer stops reading; room more bytes still fit into the buffers on the
+// way.  Resume: it reads again.
+func (c *Conn) Stall(room int) {
+	c.mu.Lock()
+	c.stalled, c.room = true, room
+	c.mu.Unlock()
+}
+
+func (c *Conn) Resume() {
+	c.mu.Lock()
+	c.stalled = false
 	c.cond.Broadcast()
 	c.mu.Unlock()
 }
